@@ -144,6 +144,19 @@ def edgesOf (cs : String) : Option Nat → List Ev → List (Nat × String)
     | some t => if s = cs then (t, v) :: edgesOf cs now es else edgesOf cs now es
     | none => edgesOf cs now es
 
+/-! ### text wave (`PrintTextWavePass._collect_sig_func`) -/
+
+/-- `x.to_bits().bin()` : `"0b" + "{:b}".format(v).zfill(nbits)` — one such string is appended per signal per cycle -/
+def wavStr (w v : Nat) : String := "0b" ++ String.ofList (binDigits w v)
+
+/-- the record kept for one signal of width `w`: one string per cycle -/
+def wavRecord (w : Nat) (vals : List Nat) : List String := vals.map (wavStr w)
+
+def parseWav (w : Nat) (s : String) : Option Nat :=
+  match s.toList with
+  | '0' :: 'b' :: rest => if rest.length = w then parseBinAux 0 rest else none
+  | _ => none
+
 /-! ### rendering (driver only) -/
 
 def Ev.text : Ev → String
